@@ -19,6 +19,12 @@ def main():
     cases = 300
     if "--cases" in args:
         i = args.index("--cases"); cases = int(args[i + 1]); del args[i:i + 2]
+    workers = 8
+    if "--workers" in args:
+        i = args.index("--workers"); workers = int(args[i + 1]); del args[i:i + 2]
+    skip = []
+    while "--skip" in args:
+        i = args.index("--skip"); skip.append(args[i + 1]); del args[i:i + 2]
     bins = {}
     for prop, m in sorted(plan.PROPS.items()):
         for j in m.jobs:
@@ -28,6 +34,8 @@ def main():
                 continue
             key = j.bin.name
             if args and not any(a in key for a in args):
+                continue
+            if any(x in key for x in skip):
                 continue
             bins.setdefault(key, []).append((prop, j))
     os.makedirs(COV, exist_ok=True)
@@ -76,7 +84,7 @@ def main():
         os.remove(exe)
         return name, "ok"
 
-    with ThreadPoolExecutor(max_workers=8) as ex:
+    with ThreadPoolExecutor(max_workers=workers) as ex:
         for name, res in ex.map(build_and_run, sorted(bins)):
             print("%-50s %s" % (name, res), flush=True)
 
